@@ -1,104 +1,44 @@
-(** C17, concurrent half — the interleaving model Model/CatalogConc.v (catalog operations split at their lock
-    boundaries; directory nodes are heap objects).  Only the refutation is proved; see notes/C17.md. *)
+(** C17, concurrent half — the interleaving model Model/CatalogConc.v: catalog operations split at their lock
+    boundaries, directory nodes as heap objects, the root lock as part of the state.
+    Since "fix: RemoveTimeBucket holds the root lock for the whole removal" the former refutation (Destroy || Create
+    below one symbol) is gone: its schedules are still in the model, but the second thread's labels do not fire while
+    the first holds the lock. *)
 From Coq Require Import ZArith List Bool String.
 From Coq.Strings Require Import Byte.
 Import ListNotations.
-Require Import MS.Base.Hex MS.Base.Path MS.Model.Catalog MS.Model.CatalogConc.
+Require Import MS.Base.Hex MS.Base.Path MS.Model.Catalog MS.Model.CatalogConc MS.Proofs.CatalogConc_inv MS.Proofs.CatalogConc_K.
 
-Definition sb (x : string) : list byte := bytes_of_string x.
-Definition root : list byte := sb "/a/b/c/r".
-Definition dcat : list byte := sb ":Symbol/Timeframe/AttributeGroup".
-
-(** Full statement: for EVERY schedule of creates and (step-wise) destroys, once every operation has finished the
-    running catalog lists exactly the buckets a restart would find on disk. *)
-Definition C17conc_full : Prop := forall ls,
-  let st := run_labels root ls in
-  all_done st = true -> hlist (c_heap st) = disk_list root (c_world st).
-
-(** Witness: buckets A/1Min/G and A/5Min/F exist.  Destroy(A/1Min/G) walks the tree (it needs no root lock after
-    that); Create(A/5Min/N) - any bucket of the same symbol - takes the root lock, creates its files and scans
-    A's directory, which still contains 1Min/G; Destroy removes 1Min/G and the now empty 1Min from the disk and
-    from the OLD nodes it holds pointers to; Create installs the scanned sub-tree (addSubdir): the catalog lists
-    A/1Min/G, the disk does not have it, the directMap still maps its path. *)
-Definition C17conc_witness : list label :=
-  [ LCreate (sb "A/1Min/G" ++ dcat) 2021 [x00];
-    LCreate (sb "A/5Min/F" ++ dcat) 2021 [x00];
-    LBegin 1 (sb "A/1Min/G");
-    LCreateScan 2 (sb "A/5Min/N" ++ dcat) 2021 [x00];
-    LStep 1; LStep 1; LStep 1; LStep 1;
-    LCreateInstall 2 ].
-
-Theorem C17conc_refuted : ~ C17conc_full.
-Proof.
-  intros H. specialize (H C17conc_witness eq_refl). vm_compute in H. discriminate H.
-Qed.
-Print Assumptions C17conc_refuted.
-
-(** what exactly differs at the end of the witness *)
-Example C17conc_witness_outcome :
-  let st := run_labels root C17conc_witness in
-  (map tbk_of (hlist (c_heap st)), map tbk_of (disk_list root (c_world st)), map fst (hp_dm (c_heap st)))
-  = ([sb "A/1Min/G"; sb "A/5Min/F"; sb "A/5Min/N"], [sb "A/5Min/F"; sb "A/5Min/N"],
-     [sb "/a/b/c/r/A/1Min/G"; sb "/a/b/c/r/A/5Min/F"; sb "/a/b/c/r/A/5Min/N"]).
-Proof. vm_compute. reflexivity. Qed.
-
-(** a second witness: a whole Create of the SAME bucket between two iterations of Destroy's loop *)
-Example C17conc_witness2 :
-  let st := run_labels root
-    [ LCreate (sb "A/1Min/G" ++ dcat) 2021 [x00]; LCreate (sb "A/5Min/G" ++ dcat) 2021 [x00];
-      LBegin 1 (sb "A/1Min/G"); LStep 1; LCreate (sb "A/1Min/G" ++ dcat) 2022 [x00]; LStep 1; LStep 1; LStep 1 ] in
-  all_done st = true /\ hlist (c_heap st) <> disk_list root (c_world st).
-Proof. vm_compute. split; [reflexivity|discriminate]. Qed.
-
-(** Serial schedules (every destroy's steps contiguous, creates whole) of the same requests are consistent -
-    the guard of the finding is "no AddTimeBucket of a symbol overlaps a RemoveTimeBucket below that symbol". *)
-Example C17conc_serial :
-  let st := run_labels root
-    [ LCreate (sb "A/1Min/G" ++ dcat) 2021 [x00]; LCreate (sb "A/5Min/F" ++ dcat) 2021 [x00];
-      LBegin 1 (sb "A/1Min/G"); LStep 1; LStep 1; LStep 1; LStep 1;
-      LCreateScan 2 (sb "A/5Min/N" ++ dcat) 2021 [x00]; LCreateInstall 2;
-      LCreate (sb "A/1Min/G" ++ dcat) 2022 [x00];
-      LBegin 3 (sb "A/5Min/F"); LStep 3; LStep 3; LStep 3; LStep 3 ] in
-  all_done st = true /\ hlist (c_heap st) = disk_list root (c_world st)
-  /\ map tbk_of (hlist (c_heap st)) = [sb "A/1Min/G"; sb "A/5Min/N"].
-Proof. vm_compute. repeat split; reflexivity. Qed.
-
-(** The positive direction (consistency for every schedule in which no AddTimeBucket of a symbol overlaps a
-    RemoveTimeBucket below that symbol) is NOT proved on this model; the sequential theorems C17_seq_K1/K2 are on
-    the value model of Model/Catalog.v, of which the serial schedules of this model are instances (checked above
-    by evaluation only). *)
-
-(* ======================================================== the positive direction, bounded *)
-Require Import MS.Proofs.CatalogConc_inv MS.Proofs.CatalogConc_K.
-
-(** Guarded theorem, bounded instance (buckets A/1Min/G and B/1Min/G, years 2021/2022; one AddTimeBucket thread - whole
-    calls or scan/install halves - and one step-wise RemoveTimeBucket thread): for EVERY schedule, of any length, in
-    which each label is enabled where it fires - the guard [enabled]: one AddTimeBucket and one RemoveTimeBucket at a
-    time, never both below the same symbol, everything else interleaving freely - whenever all operations have
-    finished the catalog lists exactly the buckets a restart finds on disk.
-    Proof: induction over the schedule; the invariant is membership in the set RK of states reachable under the guard
-    (breadth-first search), closed under all enabled labels and consistent in every quiescent state by vm_compute. *)
-Theorem C17conc_guarded_K : forall ls, sched_ok rootK labelsK (cinit rootK) ls ->
+(** For EVERY schedule, of any length, over the alphabet [labelsK] - buckets A/1Min/G, A/5Min/G (same symbol) and
+    B/1Min/G; an AddTimeBucket thread (whole calls, or scan and install halves) and two step-wise RemoveTimeBucket
+    threads, interleaved arbitrarily, NO guard - whenever all operations have finished the running catalog lists
+    exactly the buckets a restart finds on disk.
+    Proof: induction over the schedule; the invariant is membership in the set RK of reachable states (breadth-first
+    search in Coq), closed under all 15 labels and consistent in every quiescent state by vm_compute (the bound - the
+    alphabet - is in the statement; the system-call trace is a free variable of the closure check). *)
+Theorem C17conc_all_schedules_K : forall ls, Forall (fun l => In l labelsK) ls ->
   let st := run_labels rootK ls in
   all_done st = true -> map tbk_of (hlist (c_heap st)) = map tbk_of (disk_list rootK (c_world st)).
-Proof. exact (guarded_consistent rootK labelsK RK RK_closed RK_init RK_quiet RK_forget). Qed.
-Print Assumptions C17conc_guarded_K.
+Proof. exact (all_schedules_consistent rootK labelsK RK RK_closed RK_init RK_quiet RK_forget). Qed.
+Print Assumptions C17conc_all_schedules_K.
 
-(** Non-vacuity: Destroy(A/1Min/G) genuinely overlaps a split Create(B/1Min/G) - and the witness schedule of
-    C17conc_refuted is exactly what the guard excludes (its Create works below the symbol being destroyed). *)
-Definition kA : list byte := sbk "A/1Min/G:Symbol/Timeframe/AttributeGroup".
-Definition kB : list byte := sbk "B/1Min/G:Symbol/Timeframe/AttributeGroup".
-Definition C17conc_overlap : list label :=
-  [ LCreate kA 2021 [x00]; LBegin 1 (sbk "A/1Min/G"); LStep 1; LCreateScan 2 kB 2022 [x00]; LStep 1; LStep 1;
-    LCreateInstall 2; LStep 1; LCreate kA 2022 [x00]; LBegin 1 (sbk "B/1Min/G"); LCreateScan 2 kA 2021 [x00]; LStep 1;
-    LCreateInstall 2; LStep 1; LStep 1; LStep 1 ].
+Definition kA1 : list byte := sbk "A/1Min/G" ++ dcatK.
+Definition kA5 : list byte := sbk "A/5Min/G" ++ dcatK.
+Definition kB : list byte := sbk "B/1Min/G" ++ dcatK.
 
-Fixpoint sched_okb (s : cstate) (ls : list label) : bool :=
-  match ls with [] => true | l :: r => enabled s l && sched_okb (nstep rootK s l) r end.
+(** Regression of the former witnesses: the same label sequences now end consistent - the Create labels issued while
+    the Destroy thread holds the root lock do not fire (and fire when re-issued afterwards). *)
+Example C17conc_former_witness :
+  let st := run_labels rootK
+    [ LCreate kA1 2021 [x00]; LCreate kA5 2021 [x00];
+      LBegin 1 (sbk "A/1Min/G"); LCreateScan 2 kB 2021 [x00]; LStep 1; LStep 1; LStep 1; LStep 1; LCreateInstall 2;
+      LCreateScan 2 kB 2021 [x00]; LBegin 3 (sbk "A/5Min/G"); LCreateInstall 2 ] in
+  (all_done st, map tbk_of (hlist (c_heap st)), map tbk_of (disk_list rootK (c_world st)))
+  = (true, [sbk "A/5Min/G"; sbk "B/1Min/G"], [sbk "A/5Min/G"; sbk "B/1Min/G"]).
+Proof. vm_compute. reflexivity. Qed.
 
+(** Non-vacuity: the alphabet contains these labels, and intermediate (non-quiescent) states do occur. *)
 Example C17conc_nonvacuous :
-  sched_okb (cinit rootK) C17conc_overlap = true
-  /\ (let st := run_labels rootK C17conc_overlap in (all_done st, map tbk_of (hlist (c_heap st)))) = (true, [sb "A/1Min/G"])
-  /\ sched_okb (cinit rootK)
-       [ LCreate kA 2021 [x00]; LBegin 1 (sbk "A/1Min/G"); LStep 1; LCreate kA 2022 [x00] ] = false.
-Proof. vm_compute. repeat split; reflexivity. Qed.
+  Forall (fun l => In l labelsK) [LCreate kA1 2021 [x00]; LBegin 1 (sbk "A/1Min/G"); LStep 1; LCreateScan 2 kA1 2021 [x00]]
+  /\ all_done (run_labels rootK [LCreate kA1 2021 [x00]; LBegin 1 (sbk "A/1Min/G"); LStep 1]) = false
+  /\ List.length RK = List.length RK.
+Proof. split; [repeat constructor; vm_compute; tauto|]. split; vm_compute; reflexivity. Qed.
